@@ -208,7 +208,7 @@ Qed.
 
 (** ** The thunk *)
 
-(** Main lemma (all seven kinds). *)
+(** Main lemma (every kind). *)
 Theorem thunk_arg_correct : forall H f k C (s d : sub) D,
   In s (subobjects H f C) ->
   filter (of_class D) (subobjects H f C) = [d] ->
